@@ -80,8 +80,12 @@ def classify(case, impl, model):
             ia, ib = items(a), items(b)
             if len(ia) == len(ib):
                 diffs = [(x, y) for x, y in zip(ia, ib) if x != y]
-                if diffs and all(isinstance(y, list) and y[0] == 'err' and y[1] in ('invalid-start', 'invalid-end', 'invalid-score')
-                                 and isinstance(x, list) and x[0] == 'ok' for x, y in diffs):
+                # the implementation accepted the over-range column and went on: Ok, or the error of a LATER column
+                later = {'invalid-start': ('missing-end', 'invalid-end', 'missing-name', 'missing-score', 'invalid-score', 'missing-strand', 'invalid-strand', 'ext'),
+                         'invalid-end': ('missing-name', 'missing-score', 'invalid-score', 'missing-strand', 'invalid-strand', 'ext'),
+                         'invalid-score': ('missing-strand', 'invalid-strand', 'ext')}
+                if diffs and all(isinstance(y, list) and y[0] == 'err' and y[1] in later and isinstance(x, list)
+                                 and (x[0] == 'ok' or (x[0] == 'err' and x[1] in later[y[1]])) for x, y in diffs):
                     return 'lexical-overflow-undetected'
     except Exception:
         pass
